@@ -256,16 +256,46 @@ func propHooks(t *rapid.T) {
 		ev.Class("panic-in-a-wrapped-http.Handler")
 	}
 	var lastCtx *rux.Context
-	r.GET("/ok", func(c *rux.Context) { lastCtx = c; c.WriteString("fine") })
+	leaked := ""
+	r.GET("/ok", func(c *rux.Context) {
+		lastCtx = c
+		if v, ok := c.Get("reported-by-hook"); ok {
+			leaked = fmt.Sprint(v)
+		}
+		c.Set("plain-request-was-here", true)
+		c.WriteString("fine")
+	})
 	ran := map[int]int{}
 	var seen any
+	// the hook keeps the values of the failed request (c.Data()) as its panic report and files it later
+	type report struct {
+		data   map[string]any
+		thrown any
+	}
+	var reports []report
 	mkHook := func(id int) rux.HandlerFunc {
 		return func(c *rux.Context) {
 			ran[id]++
 			seen, _ = c.Get(rux.CTXRecoverResult)
+			c.Set("reported-by-hook", id)
+			reports = append(reports, report{c.Data(), seen})
 			c.SetStatus(500 + id)
 		}
 	}
+	defer func() {
+		if t.Failed() {
+			return
+		}
+		for i, rp := range reports {
+			if rp.data[rux.CTXRecoverResult] != rp.thrown || rp.data["plain-request-was-here"] != nil {
+				t.Fatalf("panic report #%d kept by the hook was rewritten by later requests: %v", i, rp.data)
+			}
+			rp.data["filed"] = true // the reporter notes that it is done with it
+		}
+		if len(reports) > 0 {
+			ev.Class("hook-keeps-the-values-of-the-failed-request")
+		}
+	}()
 	cur := 0 // 0: no hook
 	if rapid.Bool().Draw(t, "hookAtStart") {
 		cur = 1
@@ -312,6 +342,9 @@ func propHooks(t *rapid.T) {
 		if path == "/ok" {
 			if escaped != nil || rec.Code != 200 || rec.Body.String() != "fine" {
 				t.Fatalf("plain request answered %d %q escaped=%v: %s", rec.Code, rec.Body.String(), escaped, ctx)
+			}
+			if leaked != "" {
+				t.Fatalf("a plain request found the value a panic hook stored for an EARLIER request (hook #%s): %s", leaked, ctx)
 			}
 			if !strings.HasSuffix(step, "owned-context") && lastCtx == owned {
 				t.Fatalf("a ServeHTTP request was served with the context the application owns: %s", ctx)
